@@ -199,15 +199,9 @@ fn destroy(p: NonNull<Obj>) {
         AllocMode::Reuse => FREELIST.lock().unwrap_or_else(|e| e.into_inner()).push(p.as_ptr() as usize),
         AllocMode::Quarantine => {}
     }
-    if DROP_FAULT_ON.load(Relaxed) != 0 {
-        let f = *DROP_FAULT.lock().unwrap_or_else(|e| e.into_inner());
-        if let Some(f) = f {
-            if f(id, action) {
-                crate::runner::note_injected_panic();
-                std::panic::panic_any(crate::runner::InjectedPanic("destructor"));
-            }
-        }
-    }
+    let _ = action;
+    // fault plans (C18): the destructor is user code
+    crate::fault::hit(crate::fault::K_DESTRUCTOR);
 }
 
 /// End of an epoch (execution): all threads joined, nothing in flight. Returns descriptions of
